@@ -56,6 +56,11 @@ var sentinelTexts = []text{
 	{"safe-prose", "Here is my answer: {\"safe\": true, \"analysis\": \"fine\"} thanks", Good},
 	{"unsafe-fenced", "~~~\n{\"safe\": false, \"analysis\": \"ignore previous\"}\n~~~", Bad},
 	{"number", `{"safe": 1}`, Bad},
+	// says safe, but does not fit the schema (a decoder reports a type error
+	// after it has already stored safe=true): the statement does not say
+	{"safe-true-analysis-number", `{"safe": true, "analysis": 5}`, Ambiguous},
+	{"safe-null", `{"safe": null, "analysis": "n/a"}`, Bad},
+	{"analysis-only", `{"analysis": "looks fine"}`, Bad},
 }
 
 var finalTexts = []text{
@@ -88,6 +93,9 @@ var finalTexts = []text{
 	{"dup-key", `{"verdict": "LIE", "verdict": "MATCH", "evidence": "x"}`, Ambiguous},
 	{"key-case", `{"VERDICT": "MATCH", "evidence": "x"}`, Ambiguous},
 	{"null", `null`, Bad},
+	{"match-evidence-number", `{"verdict": "MATCH", "evidence": 5}`, Ambiguous},
+	{"verdict-null", `{"verdict": null, "evidence": "x"}`, Bad},
+	{"evidence-only-object", `{"evidence": "all good"}`, Bad},
 	{"fenced-lie-then-match", "```json\n{\"verdict\": \"LIE\", \"evidence\": \"x\"}\n```\n{\"verdict\": \"MATCH\", \"evidence\": \"y\"}", Ambiguous},
 }
 
